@@ -811,6 +811,11 @@ class QSerialization(DeconstructedSerialization):
         Q.AND: ' & ',
     }
 
+    if hasattr(Q, 'XOR'):
+        # Django >= 4.1
+        child_separators[Q.XOR] = ' ^ '
+
+
     @classmethod
     def serialize_to_signature(cls, q):
         """Serialize a Q object to JSON-compatible signature data.
@@ -878,8 +883,13 @@ class QSerialization(DeconstructedSerialization):
         elif num_children == 1:
             child = value.children[0]
 
-            result.append('models.Q(%s=%s)' % (child[0],
-                                               serialize_to_python(child[1])))
+            if isinstance(child, Q):
+                # A single nested Q. Keep it wrapped, so that its own
+                # negation or connector aren't merged into this one's.
+                result.append('models.Q(%s)' % serialize_to_python(child))
+            else:
+                result.append('models.Q(%s=%s)'
+                              % (child[0], serialize_to_python(child[1])))
         else:
             children = []
 
